@@ -114,6 +114,14 @@ func (e *Exec) checkServerState(actor *MConn) {
 		if g := sessionGauge() - e.Gauge0; g != float64(len(e.M.Live)) {
 			e.fail("C07", "session gauge moved by %v since the case started, %d session(s) are live", g, len(e.M.Live))
 		}
+		// The frame workers are counted only after a step that let time pass: between
+		// other steps nothing waits, so a session can be created and ended before
+		// its worker goroutine was ever scheduled (the end-of-case leak check then
+		// shows whether such a worker still stops).
+		if !e.timePassed {
+			return
+		}
+		e.timePassed = false
 		synctest.Wait()
 		if n := runtime.NumGoroutine() - e.G0; n != len(e.M.Live) {
 			// confirm with the goroutine profile (slower, but names the workers)
